@@ -41,7 +41,7 @@ def base_scenario(rng, ctype, r, c, F, form, noisy, offgrid=False):
             # ... reaching far beyond the band on both sides, so that the
             # calibration frequencies sit in the middle of the knots
             sc.offgrid_margin = float(rng.uniform(0.6, 1.5))
-        if max(r, c) >= 3 and rng.random() < 0.5:
+        if max(r, c) >= 3 and rng.random() < (0.9 if max(r, c) >= 4 else 0.5):
             # multi-port standards with a one-way (non-reciprocal) zero
             # pattern: which side of the diagonal a non-zero cell lands on
             # then depends on the port numbering and on the port map
@@ -228,7 +228,9 @@ def work(chunk_id, payload):
         if tr == "renumber" and rng.random() < 0.5:
             # three ports on a type that keeps leakage terms outside the
             # linear system: the port grouping of sparse standards matters
-            p = 3
+            # (four ports: port groups can form and merge in more than one
+            # order while a standard's cells are scanned)
+            p = 3 if rng.random() < 0.55 else 4
             ctype = physics.LEAKAGE_OUTSIDE[int(rng.integers(0, 4))]
         r = c = p
         if tr not in ("renumber",) and rng.random() < 0.2 and p == 2:
